@@ -80,8 +80,11 @@ ob("bit_stale_read", ["C05", "C13"], entry="h_bit_stale_read", mode="bounded",
 #        trusted=["typed model of the two memsets of HCIcnbit_init (destination asserted to be mask_buf / mask_info)"])
 
 prop("C05",
-     residual="skipping-Huffman, deflate (zlib external), n-bit coder encode/decode (only HCIcnbit_init's mask tables are proved), HCPcrle_seek restart, hcomp.c dispatch/header "
-              "codec, reopen of compressed elements; composition of the unbounded encode and decode proofs into a "
+     residual="decided additionally by c05_coders_ext.py: the seek functions of the RLE / skipping-Huffman / deflate / none / n-bit coders (helpers by "
+              "TRUSTED counting contracts), HCPcrle_endaccess, HIwrite2read and write-mode Hbitseek per call (OPEN finding K4: HIread2write), the "
+              "compression header codec (c03_sdio.py).  NOT decided: skipping-Huffman and deflate coding itself (zlib external), n-bit encode/decode "
+              "(only HCIcnbit_init's mask tables and the seek arithmetic are proved; the decode partition defect D72 was found natively), read-mode "
+              "Hbitseek per call, hcomp.c dispatch, reopen of compressed elements; composition of the unbounded encode and decode proofs into a "
               "round trip is by the shared PK_* packet semantics of the stubs (machine-checked only up to 6 bytes)",
      assumptions=[
          "A-RLE-IO: Hread/HDgetc report a short read as FAIL; HDputc/Hwrite either store all bytes or FAIL",
